@@ -65,7 +65,7 @@ SRC_KERNELS = {
     "C08": ["get_levels_tree_from_i", "find_end_subtree_from_i", "find_id_args_from_i", "Tree_subtree_id", "Tree_subtree", "Tree_concat", "shrink_mutation",
             "Tree_get_levels", "Tree_get_max_level", "standard_crossover",
             "find_first_difference_between_two", "common_region_two_trees", "Tree_get_common_region", "one_point_crossoverGP", "growing_mutation", "Tree_get_args_id", "point_mutation", "swap_mutation",
-            "Tree_full_growing_method", "Tree_growing_method", "GP_get_new_individ_g"],
+            "Tree_full_growing_method", "Tree_growing_method", "Tree_random_tree", "GP_get_new_individ_g"],
     "C09": ["find_end_subtree_from_i", "find_id_args_from_i", "find_first_difference_between_two", "common_region_two_trees",
             "Tree_subtree_id", "Tree_subtree", "Tree_concat", "get_levels_tree_from_i", "Tree_get_levels", "Tree_get_max_level",
             "standard_crossover", "Tree_get_common_region", "one_point_crossoverGP"],
